@@ -57,7 +57,11 @@
 #![cfg_attr(feature = "nightly", feature(async_iterator, cfg_sanitize))]
 
 use std::fmt;
-use std::sync::atomic::{AtomicU8, Ordering};
+#[cfg(not(a10_verif))]
+use std::sync::atomic::AtomicU8;
+#[cfg(a10_verif)]
+use crate::verif::AtomicU8;
+use std::sync::atomic::Ordering;
 use std::time::Duration;
 
 // This must come before the other modules for the documentation.
